@@ -41,13 +41,6 @@ pub fn x_panic() -> !
     requires false
 { panic!() }
 
-/// `for (k, v) in &qualifiers`: the pairs in storage order (Iter is a thin map over slice::Iter)
-#[verifier::external_body]
-pub fn x_qualifier_pairs<'a>(q: &'a Qualifiers) -> (r: Vec<(&'a QualifierKey, &'a str)>)
-    ensures r@.len() == q.qualifiers@.len(),
-        forall|i: int| 0 <= i < r@.len() ==> (#[trigger] r@[i]).0.0@ == q.qualifiers@[i].0.0@ && r@[i].1@ == q.qualifiers@[i].1@
-{ unimplemented!() }
-
 pub open spec fn opt_part(present: bool, s: Seq<char>) -> Seq<char> { if present { s } else { Seq::<char>::empty() } }
 
 /// [`?` + key=value pairs joined by `&`, in storage order]
